@@ -304,6 +304,18 @@ pub fn run(ctx: &Ctx, rep: &mut Report) {
             let k: String = (0..1 + rng.below(3)).map(|_| *rng.pick(ALPHABET)).collect();
             sys.entries.push(crate::model::Entry::simple(&k, rng.range(0, nid - 1) as i16, rng.range(0, nid - 1) as i16, rng.range(0, 9000) as i16, rng.pick(&pool)));
         }
+        // dictionary words of 64 and more characters made of one repeated character: a regex candidate with the same span
+        // (the texts have such runs, also away from the start of the text) must not be added a second time
+        if rng.chance(1, 2) {
+            for c in ['a', '1', 'あ'] {
+                for len in [64usize, 65, 70] {
+                    if rng.chance(1, 2) {
+                        let k: String = std::iter::repeat(c).take(len).collect();
+                        sys.entries.push(crate::model::Entry::simple(&k, rng.range(0, nid - 1) as i16, rng.range(0, nid - 1) as i16, rng.range(0, 9000) as i16, rng.pick(&pool)));
+                    }
+                }
+            }
+        }
         let defs = gen_defs(&mut rng, nid, &pool[0..3]);
         // provider stack
         let mut providers: Vec<Provider> = vec![];
